@@ -419,6 +419,89 @@ CSS_EFFECTS = CSS_EFFECTS + CSS_FORM_EFFECTS
 for _e in MARKUP_FORM_EFFECTS + CSS_FORM_EFFECTS:
     _e.form = True
 
+
+# ------------------------------------------------------------------ SCOPE entries (the call's `context`)
+# The entries above expand every abbreviation WITHOUT a `context`.  The stylesheet resolver has one code path per scope
+# (documented in upstream emmet/src/stylesheet/index.ts `CSSAbbreviationScope` and in the README section "Context":
+#   no context / '@@global'   every snippet may match the abbreviation's name
+#   '@@property'              property snippets only
+#   '@@section'               raw (non-property) snippets only
+#   any other name            VALUE scope: the abbreviation is the value of the CSS property of that name; its keyword
+#                             shorthands are matched against the keywords of that property's snippet, the output is the
+#                             value alone)
+# so a consumer of an option may sit in a scope branch that no context-free abbreviation reaches.
+#
+# `stylesheet.fuzzySearchMinScore` ("the minimum score (from 0 to 1) that fuzzy-matched abbreviation should achieve";
+# 0 = every match is taken, 1 = the exact name only).  Independence from the implementation's scoring function: the
+# abbreviations are PREFIXES of the one candidate, for which the documentation of the fuzzy match states the score in
+# closed form ("ideal match: equal strings, score 1; next best match: the candidate starts with the abbreviation,
+# score = 1 x share of matched characters"): 'yke' in 'ykeywordab' scores 3/10, 'ykeyword' scores 8/10.  Candidate
+# names start with 'y': the first characters "must match", no CSS property, keyword or built-in snippet of the cheat
+# sheet starts with 'y', and the candidates are supplied by the case itself -- so they are the only possible match.
+FUZZY_KEY = 'stylesheet.fuzzySearchMinScore'
+FUZZY_VALUES = [0, 0.5, 1]
+FUZZY_CANDIDATE = 'ykeywordab'
+FUZZY_ABBRS = [('yke', 3 / 10), ('ykeyword', 8 / 10)]
+VALUE_SCOPE_COMP = {'context': {'name': 'yy-prop'}, 'snippets': {'yyp': 'yy-prop:%s|yother' % FUZZY_CANDIDATE}}
+
+
+def _fuzzy(score, matched, unmatched=None):
+    """matched: text the output shows when the candidate is taken; not shown otherwise (and `unmatched` shown)."""
+    def show(v, fam, eff):
+        if isinstance(v, bool) or not isinstance(v, (int, float)) or not 0 <= v <= 1:
+            return None
+        if score >= v:
+            return [matched], []
+        return ([unmatched] if unmatched else []), [matched]
+    return show
+
+
+def _scoped(tag, e):
+    e.name += '@' + tag          # the same abbreviation appears under several scopes
+    e.scope = tag
+    return e
+
+
+def _css_scope_effects():
+    out = []
+
+    def add(tag, key, abbr, values, show, comp, rivals=(), slot=False):
+        out.append(_scoped(tag, Effect('stylesheet', key, abbr, values, show, comp=comp, rivals=rivals, slot=slot,
+                                       families=('css',))))
+    prop = {'snippets': {FUZZY_CANDIDATE: 'yy-prop'}}
+    raw = {'snippets': {'ysectionab': '@yy-rule ${1}'}}
+    for a, sc in FUZZY_ABBRS:
+        # the abbreviation's NAME against the snippet names
+        add('global', FUZZY_KEY, a + '10', FUZZY_VALUES, _fuzzy(sc, 'yy-prop'), prop)
+        add('property', FUZZY_KEY, a + '10', FUZZY_VALUES, _fuzzy(sc, 'yy-prop'), dict(prop, context={'name': '@@property'}))
+    for a, sc in (('yse', 3 / 10), ('ysection', 8 / 10)):
+        add('global', FUZZY_KEY, a, FUZZY_VALUES, _fuzzy(sc, '@yy-rule'), raw)
+        out[-1].contexts = [{'name': '@@global'}]      # a raw snippet: not admitted by '@@property' (see UNCHANGED_UNDER)
+        add('section', FUZZY_KEY, a, FUZZY_VALUES, _fuzzy(sc, '@yy-rule'), dict(raw, context={'name': '@@section'}))
+    for a, sc in FUZZY_ABBRS:
+        # VALUE scope: the typed value against the keywords of the property's snippet; unmatched text stays as typed
+        add('value', FUZZY_KEY, a, FUZZY_VALUES, _fuzzy(sc, FUZZY_CANDIDATE, a + END_MARK), VALUE_SCOPE_COMP)
+    # the value formatting options in VALUE scope (README "Context": `expand('10', {context: {name: 'margin'}})`-style
+    # calls give the value alone -- number with the effective unit, colour in the effective notation)
+    add('value', 'stylesheet.intUnit', '10', ['', 'Zq'], lambda v, fam, eff: '10' + v + END_MARK, VALUE_SCOPE_COMP,
+        rivals=['px'], slot=True)
+    add('value', 'stylesheet.floatUnit', '1.5', ['', 'Zq'], lambda v, fam, eff: '1.5' + v + END_MARK, VALUE_SCOPE_COMP,
+        rivals=['em'], slot=True)
+    add('value', 'stylesheet.unitAliases', '10e', [{}, {'e': 'Zq'}], _aliases, VALUE_SCOPE_COMP)
+    add('value', 'stylesheet.shortHex', '#f', [False, True], _bool(['#fff'], ['#ffff'], ['#ffffff'], []), VALUE_SCOPE_COMP)
+    return out
+
+
+CSS_SCOPE_EFFECTS = _css_scope_effects()
+CSS_EFFECTS = CSS_EFFECTS + CSS_SCOPE_EFFECTS
+
+# Scope contexts under which the documented effect of an entry WITHOUT a context of its own is the same (markup: the
+# context names the PARENT element of the abbreviation and only decides implicit tag names -- every entry names its
+# elements; stylesheet: every entry's snippets are property snippets, which '@@global' and '@@property' both admit; an
+# entry with other needs names its own list in `contexts`).
+UNCHANGED_UNDER = {'markup': [{'name': 'zzparent'}, {'name': 'ul'}, {'name': 'Table'}],
+                   'stylesheet': [{'name': '@@property'}, {'name': '@@global'}]}
+
 EFFECTS = {'markup': MARKUP_EFFECTS, 'stylesheet': CSS_EFFECTS}
 BY_NAME = {e.name: e for es in EFFECTS.values() for e in es}
 def judge(effect, v, fam, eff, out):
